@@ -5,6 +5,15 @@ import os
 import common
 
 ENC_PY = {"utf8": "utf8", "ascii": "ascii", "latin1": "latin1"}
+# other spellings of the same three codecs (what locales report: 646 on Solaris, ISO-8859-1, UTF-8 ...)
+ENC_ALIASES = {"utf8": ["utf8", "UTF-8", "utf_8", "U8"], "ascii": ["ascii", "646", "iso646-us", "US-ASCII"],
+               "latin1": ["latin1", "iso-8859-1", "L1", "cp819"]}
+ALIAS = 0      # which spelling is handed to the library for the case being executed
+
+
+def pyenc(enc):
+    names = ENC_ALIASES[enc]
+    return names[ALIAS % len(names)]
 
 
 class Tables:
@@ -52,7 +61,7 @@ class Tables:
 
     def get_key(self, seq, enc, mode, full):
         try:
-            r = self.events.get_key([seq[i:i + 1] for i in range(len(seq))], ENC_PY[enc], keynames=self.modes[mode], full=full)
+            r = self.events.get_key([seq[i:i + 1] for i in range(len(seq))], pyenc(enc), keynames=self.modes[mode], full=full)
         except Exception:  # noqa
             return 1
         return self.code(r, seq, enc, mode)
@@ -81,7 +90,7 @@ def run_stream(tables, data, enc, pipe):
     import curtsies.input as cinput
     out = {}
     orig = cinput.getpreferredencoding
-    cinput.getpreferredencoding = lambda: ENC_PY[enc]
+    cinput.getpreferredencoding = lambda: pyenc(enc)
     try:
         for mode, sfx in (("curtsies", "c"), ("curses", "s"), ("bytes", "b")):
             inp = cinput.Input(in_stream=pipe, keynames=tables.modes[mode])
@@ -123,7 +132,7 @@ def run_pipe(tables, items, enc, pipe):
     from curtsies import events as cevents
     data = b"".join(items)
     orig = cinput.getpreferredencoding
-    cinput.getpreferredencoding = lambda: ENC_PY[enc]
+    cinput.getpreferredencoding = lambda: pyenc(enc)
     keys, exc = [], ""
     try:
         os.write(pipe.w, data)
